@@ -69,6 +69,16 @@ pub fn attribute(v: &Viol, lying: bool) -> Vec<&'static str> {
                 vec!["C10"]
             }
         }
+        // the one C10 rule that is evaluated under an injected fault: the destructor of an element still
+        // inside a drain panics while the drain is dropped - "no matter how much of the drain was consumed
+        // before it was dropped" the container is empty afterwards
+        "drain-not-empty-after-panic" => {
+            if lying {
+                vec![]
+            } else {
+                vec!["C10"]
+            }
+        }
         "differs-from-one-by-one" | "pull-log" | "capacity-misjudged" => {
             if v.after_fault || lying {
                 vec![]
@@ -258,7 +268,18 @@ pub fn variants(prop: &str, base: &Plan, dry: &RunOut, r: &mut crate::env::Split
                         let mut p = base.clone();
                         set_session(&mut p.ops[i], j, end);
                         if p.ops[i] != base.ops[i] {
-                            out.push(p);
+                            out.push(p.clone());
+                        }
+                        // C10: a drain dropped with elements left whose destructor panics inside that drop
+                        // (the first, second or third destructor call of the drop, key or value)
+                        // (quick tier: three cancellation points and two positions; thorough: all of them)
+                        if prop == "C10" && end == End::Drop && matches!(base.ops[i], Op::Drain { .. } | Op::SDrain { .. }) && (j as usize) < base.cfg.n.max(base.cfg.m) && (thorough || j == 0 || j == 1 || j == 3) {
+                            let sites: &[(u32, Cb)] = if thorough { &[(1, Cb::DropK), (2, Cb::DropK), (1, Cb::DropV), (3, Cb::DropV)] } else { &[(1, Cb::DropK), (2, Cb::DropV)] };
+                            for &(ord, kind) in sites {
+                                let mut q = p.clone();
+                                q.faults = vec![Fault { op: i, ord, kind: Some(kind) }];
+                                out.push(q);
+                            }
                         }
                     }
                 }
